@@ -139,6 +139,11 @@ theorem mem_eraseIdx' {α : Type} {l : List α} {i : Nat} {a : α} (h : a ∈ l.
 
 /-! ## the run invariant -/
 
+/-- a failback execution whose callback is running was invoked at or before the current role epoch, and if no role
+    change has been committed since, the node is still active -/
+abbrev GProp (s : State) (e : Exec) : Prop :=
+  e.kind = .failback → e.stage = .calling → e.epoch ≤ s.roleEpoch ∧ (e.epoch = s.roleEpoch → s.role = .active)
+
 structure Core (s : State) : Prop where
   gT : ∀ t ∈ s.timers, t.gen ≤ s.gen
   H  : s.healthy = false → ∃ a, s.downSince = some a ∧ a ≤ s.now
@@ -150,7 +155,7 @@ structure Core (s : State) : Prop where
   E0 : s.state ≠ .inProgress → s.execs.countP isFo = 0
   F  : ∀ e ∈ s.execs, e.kind = .failover → e.forced = false →
          ∃ a, e.downSinceAtFire = some a ∧ a + s.cfg.delay ≤ e.firedAt
-  FB : ∀ e ∈ s.execs, e.kind = .failback → e.oldRole = .active
+  G  : ∀ e ∈ s.execs, GProp s e
   L  : ∀ p ∈ s.autoLog, ∃ a, p.2 = some a ∧ a + s.cfg.delay ≤ p.1
   C  : s.completedEvents = s.promotions ∧ s.completed = s.promotions
 
@@ -202,7 +207,7 @@ theorem inv_scheduleFailover {s : State} (h : Core s) (hD : DProp s) (hh : s.hea
       · intro hx; simp at hx
       · intro _; exact h.E0 (by rw [hc.2]; simp)
       · exact h.F
-      · exact h.FB
+      · exact h.G
       · exact h.L
       · exact h.C
     · intro hx; simp at hx
@@ -230,7 +235,7 @@ theorem inv_cancelFailover {s : State} (h : Core { s with state := .normal }) (h
     · intro hx; simp at hx
     · intro _; exact h.E0 (by simp)
     · exact h.F
-    · exact h.FB
+    · exact h.G
     · exact h.L
     · exact h.C
   · intro hx; simp at hx
@@ -257,7 +262,7 @@ theorem inv_scheduleFailback {s : State} (h : Core s) (hN : NProp s) : Inv (sche
       · intro hx; simp at hx
       · intro _; exact h.E0 (by rw [hc.1]; simp)
       · exact h.F
-      · exact h.FB
+      · exact h.G
       · exact h.L
       · exact h.C
     · intro hx; simp at hx
@@ -272,7 +277,7 @@ theorem inv_scheduleFailback {s : State} (h : Core s) (hN : NProp s) : Inv (sche
 theorem Core.withExecs {s : State} (h : Core s) (ex : List Exec)
     (hc : ex.countP isFo = s.execs.countP isFo)
     (hm : ∀ e ∈ ex, ∃ e0 ∈ s.execs, e.kind = e0.kind ∧ e.forced = e0.forced ∧
-        e.downSinceAtFire = e0.downSinceAtFire ∧ e.firedAt = e0.firedAt ∧ e.oldRole = e0.oldRole) :
+        e.downSinceAtFire = e0.downSinceAtFire ∧ e.firedAt = e0.firedAt ∧ GProp s e) :
     Core { s with execs := ex } := by
   constructor
   · exact h.gT
@@ -286,23 +291,28 @@ theorem Core.withExecs {s : State} (h : Core s) (ex : List Exec)
     obtain ⟨e0, h0, hk0, hf0, hd0, ha0, _⟩ := hm e he
     have := h.F e0 h0 (by rw [← hk0]; exact hk) (by rw [← hf0]; exact hf)
     rw [hd0, ha0]; exact this
-  · intro e he hk
-    obtain ⟨e0, h0, hk0, _, _, _, ho0⟩ := hm e he
-    rw [ho0]; exact h.FB e0 h0 (by rw [← hk0]; exact hk)
+  · intro e he
+    obtain ⟨e0, h0, hk0, _, _, _, hg⟩ := hm e he
+    exact hg
   · exact h.L
   · exact h.C
 
 theorem Inv.withExecs {s : State} (h : Inv s) (ex : List Exec)
     (hc : ex.countP isFo = s.execs.countP isFo)
     (hm : ∀ e ∈ ex, ∃ e0 ∈ s.execs, e.kind = e0.kind ∧ e.forced = e0.forced ∧
-        e.downSinceAtFire = e0.downSinceAtFire ∧ e.firedAt = e0.firedAt ∧ e.oldRole = e0.oldRole) :
+        e.downSinceAtFire = e0.downSinceAtFire ∧ e.firedAt = e0.firedAt ∧ GProp s e) :
     Inv { s with execs := ex } :=
   ⟨h.toCore.withExecs ex hc hm, h.D, h.N⟩
 
 theorem erase_members {l : List Exec} {j : Nat} :
     ∀ e ∈ l.eraseIdx j, ∃ e0 ∈ l, e.kind = e0.kind ∧ e.forced = e0.forced ∧
-        e.downSinceAtFire = e0.downSinceAtFire ∧ e.firedAt = e0.firedAt ∧ e.oldRole = e0.oldRole :=
-  fun e he => ⟨e, mem_eraseIdx' he, rfl, rfl, rfl, rfl, rfl⟩
+        e.downSinceAtFire = e0.downSinceAtFire ∧ e.firedAt = e0.firedAt :=
+  fun e he => ⟨e, mem_eraseIdx' he, rfl, rfl, rfl, rfl⟩
+
+theorem Inv.eraseMembers {s : State} (h : Inv s) (j : Nat) :
+    ∀ e ∈ s.execs.eraseIdx j, ∃ e0 ∈ s.execs, e.kind = e0.kind ∧ e.forced = e0.forced ∧
+        e.downSinceAtFire = e0.downSinceAtFire ∧ e.firedAt = e0.firedAt ∧ GProp s e :=
+  fun e he => ⟨e, mem_eraseIdx' he, rfl, rfl, rfl, rfl, h.G e (mem_eraseIdx' he)⟩
 
 theorem inv_down {s : State} (h : Inv s) : Inv (down s).1 := by
   unfold down
@@ -320,7 +330,7 @@ theorem inv_down {s : State} (h : Inv s) : Inv (down s).1 := by
       · exact h.E1
       · exact h.E0
       · exact h.F
-      · exact h.FB
+      · exact h.G
       · exact h.L
       · exact h.C
     · intro _ hx; simp at hx
@@ -345,7 +355,7 @@ theorem inv_up {s : State} (h : Inv s) : Inv (up s).1 := by
       · intro hx; simp at hx
       · intro _; exact h.E0 (by rw [hp]; simp)
       · exact h.F
-      · exact h.FB
+      · exact h.G
       · exact h.L
       · exact h.C
     · rename_i hnp
@@ -359,7 +369,7 @@ theorem inv_up {s : State} (h : Inv s) : Inv (up s).1 := by
         · exact h.E1
         · exact h.E0
         · exact h.F
-        · exact h.FB
+        · exact h.G
         · exact h.L
         · exact h.C
       · intro _ _; rfl
@@ -381,7 +391,7 @@ theorem inv_tick {s : State} (h : Inv s) : Inv (tick s).1 := by
       · intro hx; simp at hx
       · intro _; exact h.E0 (by rw [hc.1]; simp)
       · exact h.F
-      · exact h.FB
+      · exact h.G
       · exact h.L
       · exact h.C
     · intro _ hx; simp only at hx; rw [hc.2] at hx; simp at hx
@@ -389,7 +399,7 @@ theorem inv_tick {s : State} (h : Inv s) : Inv (tick s).1 := by
   · exact h
 
 theorem inv_advance {s : State} (h : Inv s) (dt : Nat) : Inv { s with now := s.now + dt } := by
-  refine ⟨⟨h.gT, ?_, h.K, h.R, h.A, h.E1, h.E0, h.F, h.FB, h.L, h.C⟩, h.D, h.N⟩
+  refine ⟨⟨h.gT, ?_, h.K, h.R, h.A, h.E1, h.E0, h.F, h.G, h.L, h.C⟩, h.D, h.N⟩
   intro hh
   obtain ⟨a, ha, hle⟩ := h.H hh
   exact ⟨a, ha, by simp only; omega⟩
@@ -415,7 +425,7 @@ theorem inv_mark {s : State} (h : Inv s) (i : Nat) : Inv { s with timers := mark
   · exact h.E1
   · exact h.E0
   · exact h.F
-  · exact h.FB
+  · exact h.G
   · exact h.L
   · exact h.C
 
@@ -460,11 +470,11 @@ theorem inv_fire {s : State} (h : Inv s) (i : Nat) : Inv (fire s i).1 := by
                 · exact h.F e he hke hf
                 · subst he
                   exact ⟨a, ha, by simp only; omega⟩
-              · intro e he hke
+              · intro e he
                 simp only [List.mem_append, List.mem_singleton] at he
                 rcases he with he | he
-                · exact h.FB e he hke
-                · subst he; simp at hke
+                · exact h.G e he
+                · subst he; intro hke; simp at hke
               · exact h.L
               · exact h.C
             · intro hx; simp at hx
@@ -486,7 +496,7 @@ theorem inv_fire {s : State} (h : Inv s) (i : Nat) : Inv (fire s i).1 := by
               · intro hx; simp at hx
               · intro _; exact h.E0 (by rw [hc.1]; simp)
               · exact h.F
-              · exact h.FB
+              · exact h.G
               · exact h.L
               · exact h.C
             · intro _ hx; simp only at hx hu; rw [hu] at hx; simp at hx
@@ -507,24 +517,24 @@ theorem inv_fire {s : State} (h : Inv s) (i : Nat) : Inv (fire s i).1 := by
               rcases he with he | he
               · exact h.F e he hke hf
               · subst he; simp at hke
-            · intro e he hke
+            · intro e he
               simp only [List.mem_append, List.mem_singleton] at he
               rcases he with he | he
-              · exact h.FB e he hke
-              · subst he; exact hact
+              · exact h.G e he
+              · subst he; intro _ hst; simp at hst
             · exact h.L
             · exact h.C
         · exact hm
 
-theorem setExec_members {l : List Exec} {j : Nat} {e0 e' : Exec} (h0 : l[j]? = some e0)
+theorem setExec_members {s : State} (h : Inv s) {j : Nat} {e0 e' : Exec} (h0 : s.execs[j]? = some e0)
     (hk : e'.kind = e0.kind) (hf : e'.forced = e0.forced) (hd : e'.downSinceAtFire = e0.downSinceAtFire)
-    (ha : e'.firedAt = e0.firedAt) (ho : e'.oldRole = e0.oldRole) :
-    ∀ e ∈ setExec l j e', ∃ x ∈ l, e.kind = x.kind ∧ e.forced = x.forced ∧
-        e.downSinceAtFire = x.downSinceAtFire ∧ e.firedAt = x.firedAt ∧ e.oldRole = x.oldRole := by
+    (ha : e'.firedAt = e0.firedAt) (hg : GProp s e') :
+    ∀ e ∈ setExec s.execs j e', ∃ x ∈ s.execs, e.kind = x.kind ∧ e.forced = x.forced ∧
+        e.downSinceAtFire = x.downSinceAtFire ∧ e.firedAt = x.firedAt ∧ GProp s e := by
   intro e he
   rcases mem_setExec he with he | he
-  · subst he; exact ⟨e0, mem_of_getElem?' h0, hk, hf, hd, ha, ho⟩
-  · exact ⟨e, he, rfl, rfl, rfl, rfl, rfl⟩
+  · subst he; exact ⟨e0, mem_of_getElem?' h0, hk, hf, hd, ha, hg⟩
+  · exact ⟨e, he, rfl, rfl, rfl, rfl, h.G e he⟩
 
 theorem inv_callCheck {s : State} (h : Inv s) (j : Nat) (ok : Bool) (dur : Nat) : Inv (callCheck s j ok dur).1 := by
   unfold callCheck
@@ -558,23 +568,23 @@ theorem inv_callCheck {s : State} (h : Inv s) (j : Nat) (ok : Bool) (dur : Nat) 
           · intro hx; simp at hx
           · intro _; simp only; omega
           · intro e' he'; exact h.F e' (mem_eraseIdx' he')
-          · intro e' he'; exact h.FB e' (mem_eraseIdx' he')
+          · intro e' he'; exact h.G e' (mem_eraseIdx' he')
           · exact h.L
           · exact h.C
         · apply h.withExecs
           · exact countP_setExec he (by simp [isFo])
-          · exact setExec_members he rfl rfl rfl rfl rfl
+          · exact setExec_members h he rfl rfl rfl rfl (fun hx => by simp [hk] at hx)
       · -- failback execution
         rename_i hk
         have hfo : isFo e = false := by simp [isFo, hk]
         have hcnt := countP_eraseIdx_neg he hfo
         split
-        · exact h.withExecs _ hcnt erase_members
+        · exact h.withExecs _ hcnt (h.eraseMembers j)
         · rename_i hv
           simp only [ne_eq, not_or, Decidable.not_not] at hv
           split
           · rename_i hu
-            have base := h.withExecs _ hcnt (erase_members (j := j))
+            have base := h.withExecs _ hcnt (h.eraseMembers j)
             refine ⟨?_, ?_, ?_⟩
             · constructor
               · exact base.gT
@@ -585,14 +595,15 @@ theorem inv_callCheck {s : State} (h : Inv s) (j : Nat) (ok : Bool) (dur : Nat) 
               · intro hx; simp at hx
               · intro _; exact base.E0 (by simp only; rw [hv.1]; simp)
               · exact base.F
-              · exact base.FB
+              · exact base.G
               · exact base.L
               · exact base.C
             · intro _ hx; simp only at hx; rw [hu] at hx; simp at hx
             · intro _ hx; simp at hx
           · apply h.withExecs
             · exact countP_setExec he (by simp [isFo])
-            · exact setExec_members he rfl rfl rfl rfl rfl
+            · exact setExec_members h he rfl rfl rfl rfl
+                (fun _ _ => ⟨Nat.le_refl _, fun _ => h.A (Or.inr hv.1)⟩)
 
 theorem inv_commit {s : State} (h : Inv s) (j : Nat) : Inv (commit s j).1 := by
   unfold commit
@@ -618,7 +629,7 @@ theorem inv_commit {s : State} (h : Inv s) (j : Nat) : Inv (commit s j).1 := by
         have hrole := h.R (Or.inr hip)
         split
         · -- the callback succeeded: commit
-          have core : Core { s with execs := s.execs.eraseIdx j, role := .active, state := .complete, completed := s.completed + 1, promotions := s.promotions + 1, completedEvents := s.completedEvents + 1, autoLog := if e.forced then s.autoLog else s.autoLog ++ [(e.firedAt, e.downSinceAtFire)], forcedHold := e.forced } := by
+          have core : Core { s with execs := s.execs.eraseIdx j, role := .active, roleEpoch := s.roleEpoch + 1, state := .complete, completed := s.completed + 1, promotions := s.promotions + 1, completedEvents := s.completedEvents + 1, autoLog := if e.forced then s.autoLog else s.autoLog ++ [(e.firedAt, e.downSinceAtFire)], forcedHold := e.forced } := by
             constructor
             · exact h.gT
             · exact h.H
@@ -628,7 +639,9 @@ theorem inv_commit {s : State} (h : Inv s) (j : Nat) : Inv (commit s j).1 := by
             · intro hx; simp at hx
             · intro _; exact h0
             · intro e' he'; exact h.F e' (mem_eraseIdx' he')
-            · intro e' he'; exact h.FB e' (mem_eraseIdx' he')
+            · intro e' he' hk' hs'
+              have := (h.G e' (mem_eraseIdx' he') hk' hs').1
+              exact ⟨by simp only; omega, fun hx => by simp only at hx; omega⟩
             · intro p hp
               simp only at hp
               split at hp
@@ -663,7 +676,7 @@ theorem inv_commit {s : State} (h : Inv s) (j : Nat) : Inv (commit s j).1 := by
             · intro hx; simp at hx
             · intro _; exact h0
             · intro e' he'; exact h.F e' (mem_eraseIdx' he')
-            · intro e' he'; exact h.FB e' (mem_eraseIdx' he')
+            · intro e' he'; exact h.G e' (mem_eraseIdx' he')
             · exact h.L
             · exact h.C
           split
@@ -680,20 +693,24 @@ theorem inv_commit {s : State} (h : Inv s) (j : Nat) : Inv (commit s j).1 := by
         rename_i hk
         have hfo : isFo e = false := by simp [isFo, hk]
         have hcnt := countP_eraseIdx_neg he hfo
-        have base := h.withExecs _ hcnt (erase_members (j := j))
-        have hold := h.FB e hem hk
+        have base := h.withExecs _ hcnt (h.eraseMembers j)
+        have hcall : e.stage = .calling := by
+          rename_i hen _
+          simp only [ne_eq, not_or, Decidable.not_not] at hen
+          exact hen.1
+        have hg := h.G e hem hk hcall
         split
         · split
           · exact base
           · -- commit of the failback
             rename_i hr
             simp only [ne_eq, Decidable.not_not] at hr
-            have hact : s.role = .active := by rw [← hold]; exact hr
+            have hact : s.role = .active := hg.2 hr
             have hnip : s.state ≠ .inProgress := by
               intro hx
               have := h.R (Or.inr hx)
               rw [hact] at this; simp at this
-            have core : Core { s with execs := s.execs.eraseIdx j, role := s.cfg.original, state := .normal, failbacks := s.failbacks + 1 } := by
+            have core : Core { s with execs := s.execs.eraseIdx j, role := s.cfg.original, roleEpoch := s.roleEpoch + 1, state := .normal, failbacks := s.failbacks + 1 } := by
               constructor
               · exact h.gT
               · exact h.H
@@ -703,7 +720,9 @@ theorem inv_commit {s : State} (h : Inv s) (j : Nat) : Inv (commit s j).1 := by
               · intro hx; simp at hx
               · intro _; exact base.E0 hnip
               · exact base.F
-              · exact base.FB
+              · intro e' he' hk' hs'
+                have := (h.G e' (mem_eraseIdx' he') hk' hs').1
+                exact ⟨by simp only; omega, fun hx => by simp only at hx; omega⟩
               · exact h.L
               · exact h.C
             split
@@ -728,7 +747,7 @@ theorem inv_commit {s : State} (h : Inv s) (j : Nat) : Inv (commit s j).1 := by
               · intro hx; simp at hx
               · intro _; exact base.E0 (by simp only; rw [hv.1]; simp)
               · exact base.F
-              · exact base.FB
+              · exact base.G
               · exact h.L
               · exact h.C
             split
@@ -770,11 +789,11 @@ theorem inv_forceFailover {s : State} (h : Inv s) : Inv (forceFailover s).1 := b
         rcases he with he | he
         · exact h.F e he hke hf
         · subst he; simp at hf
-      · intro e he hke
+      · intro e he
         simp only [List.mem_append, List.mem_singleton] at he
         rcases he with he | he
-        · exact h.FB e he hke
-        · subst he; simp at hke
+        · exact h.G e he
+        · subst he; intro hke; simp at hke
       · exact h.L
       · exact h.C
 
